@@ -58,8 +58,13 @@ func c09alloc(c *core.Ctx, r *core.Reporter) {
 		}
 	}
 	lispInt := func(v ssa.Value) bool {
-		if derivesFromLispInt(v, 0) {
+		if derivesFromLispInt(v, 0) || core.IsNamed(v.Type(), core.SlipPath, "Fixnum") {
 			return true
+		}
+		for r := range intRoots(v, 0) {
+			if core.IsNamed(r.Type(), core.SlipPath, "Fixnum") {
+				return true
+			}
 		}
 		for r := range intRoots(v, 0) {
 			if call, ok := r.(*ssa.Call); ok {
@@ -84,6 +89,10 @@ func c09alloc(c *core.Ctx, r *core.Reporter) {
 		for _, b := range fn.Blocks {
 			for _, in := range b.Instrs {
 				switch x := in.(type) {
+				case *ssa.MakeChan:
+					if lispInt(x.Size) {
+						sites = append(sites, site{fn, in, x.Size, "make(chan)"})
+					}
 				case *ssa.MakeSlice:
 					if lispInt(x.Len) {
 						sites = append(sites, site{fn, in, x.Len, "make"})
@@ -251,7 +260,23 @@ func c09alloc(c *core.Ctx, r *core.Reporter) {
 				}
 				operand = x
 			default:
-				continue
+				if !core.IsNamed(rv.Type(), core.SlipPath, "Fixnum") {
+					continue
+				}
+				// judged through its conversion when it reaches the size only through one
+				viaConvert := false
+				for other := range roots {
+					if cv, ok := other.(*ssa.Convert); ok && cv.X == rv {
+						viaConvert = true
+					}
+				}
+				if viaConvert {
+					continue
+				}
+				if _, isInstr := rv.(ssa.Instruction); !isInstr {
+					continue
+				}
+				operand = rv
 			}
 			nRoots++
 			in, _ := rv.(ssa.Instruction)
